@@ -128,6 +128,23 @@ func runC20(w *World, tier string, advMode string) (bool, interface{}) {
 		oldMsgs = f
 		w.Stats.Fault("log-without-self-confirmations")
 	}
+	// the dump's record identifiers: a file board stamps a uuid on every record,
+	// a Kafka export carries none except on the records a node built itself
+	// (proposals); some exports have none at all
+	switch w.Tape.Choose(3, "dumpIds") {
+	case 1:
+		for i := range oldMsgs {
+			if oldMsgs[i].Event != "event_sig_proposal_init" && oldMsgs[i].Event != "event_signing_start" {
+				oldMsgs[i].ID = ""
+			}
+		}
+		w.Stats.Fault("dump-with-kafka-style-record-ids")
+	case 2:
+		for i := range oldMsgs {
+			oldMsgs[i].ID = ""
+		}
+		w.Stats.Fault("dump-without-record-ids")
+	}
 	// new world: new board, new nodes, new machines
 	w.Board = newBoard(w)
 	c2 := &Cer{W: w, L: NewLoop(w), N: n}
